@@ -24,6 +24,11 @@ fn like<A: Encode + EncodeLike<B>, B: Encode + Decode + Uni>(cx: &mut Cx, fam: &
 		let mut rest = &ea[..];
 		// the target's decoder must take all of what A produced, and nothing else
 		let d = B::decode(&mut rest).ok().filter(|_| rest.is_empty());
+		// ... also when they arrive in a shared buffer
+		let d = match (d, parity_scale_codec::decode_from_bytes::<B>(bytes::Bytes::from(ea.clone())).ok()) {
+			(Some(x), Some(y)) if y.same(&x) => Some(x),
+			_ => None,
+		};
 		(ea, eb, d)
 	}));
 	match r {
@@ -190,6 +195,13 @@ pub fn run(args: &Args) {
 		like::<bytes::Bytes, Vec<u8>>(&mut cx, "Bytes->Vec<u8>", &b, &v, true);
 		like::<&[u8], bytes::Bytes>(&mut cx, "&[u8]->Bytes", &&v[..], &b, true);
 		like::<Vec<u8>, bytes::Bytes>(&mut cx, "Vec<u8>->Bytes", &v, &b, true);
+		// a byte buffer followed by more data, and buffers inside a sequence
+		let n32 = u32::gen(&mut cx.rng, 0);
+		like::<(Vec<u8>, u32, u8), (bytes::Bytes, u32, u8)>(&mut cx, "(Vec<u8>,u32,u8)->(Bytes,u32,u8)", &(v.clone(), n32, 7), &(b.clone(), n32, 7), true);
+		let vs: Vec<Vec<u8>> = vec![v.clone(), vec![], Vec::<u8>::gen(&mut cx.rng, 1)];
+		let bs: Vec<bytes::Bytes> = vs.iter().cloned().map(bytes::Bytes::from).collect();
+		let refs: Vec<&[u8]> = vs.iter().map(|x| &x[..]).collect();
+		like::<Vec<&[u8]>, Vec<bytes::Bytes>>(&mut cx, "Vec<&[u8]>->Vec<Bytes>", &refs, &bs, true);
 		// compact references
 		let n = u64::gen(&mut cx.rng, 0);
 		cx.oracle.check(CompactRef(&n).encode() == Compact(n).encode(), "compact-ref-differs", || format!("CompactRef<u64> {n}"));
